@@ -55,6 +55,7 @@ class TaskThread:
         self.blocked_on = None
         self.priority = 0
         self.thread = None
+        self.group_counts = [0] * len(GROUPS)
 
 
 class SimLock:
@@ -219,11 +220,13 @@ class Scheduler:
         if bits:
             self.any_shared_step += 1
             gc_ = self.group_counts
+            tg_ = t.group_counts
             i = 0
             b = bits
             while b:
                 if b & 1:
                     gc_[i] += 1
+                    tg_[i] += 1
                 b >>= 1
                 i += 1
         if is_shared:
